@@ -61,6 +61,12 @@ func (rm *ResponseManager) processRequests(p peer.ID, requests []gsmsg.GraphSync
 	defer messageSpan.End()
 
 	for _, request := range requests {
+		// responses are tracked by request ID alone: only the peer a response is being served to
+		// may cancel, update or replace it
+		if response, ok := rm.inProgressResponses[request.ID()]; ok && response.peer != p {
+			log.Warnf("ignoring %s request from %s for request ID %s, which is in use by %s", request.Type(), p, request.ID().String(), response.peer)
+			continue
+		}
 		switch request.Type() {
 		case graphsync.RequestTypeCancel:
 			_ = rm.abortRequest(ctx, request.ID(), ipldutil.ContextCancelError{})
